@@ -14,6 +14,7 @@ The placement loop itself (delete / transmit, `samePlacement`) is C20's (`Model/
 -/
 import VaxisModel.Props.C01Clip
 import VaxisModel.Lemmas.RenderSixel
+import VaxisModel.Lemmas.RenderImagesFrame
 
 namespace VaxisModel.Props.C01Sixel
 open VaxisModel.Model.Render VaxisModel.Spec VaxisModel.Spec.Display
@@ -193,6 +194,63 @@ theorem images_need_placed_cells : ¬ frame_displays_images_unrestricted := by
     (fun _ => VaxisModel.Props.C01Display.init_wf 2 1) (fun h => absurd h (by decide)) (by decide)).2 0 1 (by decide)
   revert this
   decide
+
+/-- **The display clause for screens with image cells** — every capability set, width oracle, grid,
+    diff frame or refresh, any number of image cells anywhere: nothing terminal-specific is relied on
+    and the terminal shows the application's screen at every position that is not "unknown pixels".
+    One hypothesis beyond the full statement, `GridOverNarrow`: no image cell comes over the HEAD of a
+    wide glyph the terminal still shows (diff frame: the previous frame's cell at an image position is
+    narrow; refresh: the terminal cell there is not a wide glyph).  In that case the loop leaves the head
+    under the image and rewrites the glyph's other columns (F113 repair), which on the reference
+    terminal turns the head into `poison` at a position that is "unknown pixels" anyway — the row
+    invariant of `Lemmas/RenderImages` (finished part of the row fixed) does not express that; the
+    F113 frames are the decide-checked instances below. -/
+theorem frame_displays_images (cw : String → Nat) (f : Frame) (t : Term)
+    (himg : ImageCellsAsPlaced cw f.next)
+    (hrest : Rest t) (hbad : t.bad = none)
+    (hlen : t.grid.length = f.next.length) (hlast : f.last.length = f.next.length)
+    (hgc : ∀ r ∈ t.grid, r.length = t.cols) (hnc : ∀ r ∈ f.next, r.length = t.cols)
+    (hlc : ∀ r ∈ f.last, r.length = t.cols) (hrows : t.rows = f.next.length)
+    (hcells : ∀ r ∈ f.next, ∀ c ∈ r, 0 ≤ c.w ∧ WidthOk cw f.caps c)
+    (hagree : f.refresh = false → Agree cw f.caps t f.last)
+    (hsp : cw "20" = 1)
+    (hwf : f.refresh = true → ∀ r ∈ t.grid, WFRow 0 r)
+    (hcur : f.cursorNext.visible = true →
+      (0 ≤ f.cursorNext.row ∧ f.cursorNext.row < t.rows) ∧ (0 ≤ f.cursorNext.col ∧ f.cursorNext.col < t.cols))
+    (hlp : t.linkParams = "")
+    (hnar : VaxisModel.Lemmas.RenderImages.GridOverNarrow cw f.refresh t.grid f.last f.next) :
+    (run cw t (renderFrameS cw f).2).bad = none ∧
+    ShowsOutsideImages cw f.caps f.next (run cw t (renderFrameS cw f).2).grid := by
+  obtain ⟨pre, X, Y, hpre, _, h2, hX, hY, _⟩ := VaxisModel.Lemmas.RenderImages.frame_shapeS cw f t.rows t.cols hcur
+  have hok := VaxisModel.Lemmas.RenderImages.rowsOkM_of cw f.caps f.refresh t.cols t.grid f.last f.next
+    (by rw [hlen, hlast]) hlast hgc hlc hagree hwf hnar
+  obtain ⟨c1, c2⟩ := VaxisModel.Lemmas.RenderImages.frame_coreS cw hsp f t X Y pre hX hY hpre hrest.1 hrest.2.1 hlp hbad
+    hlast hnc hlc hrows hcells hok
+  rw [h2]
+  refine ⟨c1, ?_⟩
+  intro r c hu
+  exact VaxisModel.Lemmas.RenderImages.maskedRows_shows cw f.caps f.next _ c2 himg r c hu
+
+/-- Non-vacuity: a refresh of `a`, an image cell, a wide glyph and a never-written cell on a blank
+    4×1 terminal meets every hypothesis of `frame_displays_images`. -/
+def frameImg : Frame :=
+  { caps := {}, refresh := true, next := [[({ g := "61" } : Cell), { sixel := true }, { g := "f09f94a5" }, {}]],
+    last := [[({} : Cell), {}, {}, {}]], cursorNext := {}, cursorLast := {} }
+
+example : (run cwEx (Term.init 4 1) (renderFrameS cwEx frameImg).2).bad = none ∧
+    ShowsOutsideImages cwEx {} frameImg.next (run cwEx (Term.init 4 1) (renderFrameS cwEx frameImg).2).grid := by
+  refine frame_displays_images cwEx frameImg (Term.init 4 1) (by unfold ImageCellsAsPlaced; decide) ⟨by decide, by decide, by decide⟩ (by decide) (by decide)
+    (by decide) (by decide) (by decide) (by decide) (by decide) ?_ (fun h => absurd h (by decide)) (by decide)
+    (fun _ => VaxisModel.Props.C01Display.init_wf 4 1) (fun h => absurd h (by decide)) (by decide) ?_
+  · intro r hr c hc
+    simp only [frameImg, List.mem_singleton] at hr; subst hr
+    simp only [List.mem_cons, List.not_mem_nil, or_false] at hc
+    rcases hc with rfl | rfl | rfl | rfl <;> exact ⟨by decide, Or.inl rfl⟩
+  · refine ⟨fun h => absurd h (by decide), fun _ => ?_, trivial⟩
+    refine ⟨fun h => absurd h (by decide), ⟨fun _ g w st lp lk h => ?_, ⟨fun h => absurd h (by decide), ⟨fun h => absurd h (by decide), trivial⟩⟩⟩⟩
+    simp only [DCell.blank] at h
+    injection h with _ hw
+    omega
 
 /-- The proved part: without image cells `ShowsOutsideImages` is `grid = expectedC` and holds. -/
 theorem frame_displays_images_partial (cw : String → Nat) (f : Frame) (t : Term)
